@@ -273,7 +273,8 @@ fn main() {
                 let r = j.get("replay").cloned().unwrap_or(J::Null);
                 std::process::exit(scoremon::replay(&mut c, &r));
             }
-            scoremon::c14(&mut c, a.seed, a.shard, a.nshards, a.tier == "thorough");
+            let small = a.rest.iter().any(|x| x == "--small");
+            scoremon::c14(&mut c, a.seed, a.shard, a.nshards, a.tier == "thorough", small);
             finish(&c, &a, J::Null);
         }
         "C11" | "C12" | "C13" => {
